@@ -12,6 +12,7 @@
 
 
 import importlib
+import copy
 import os
 from pathlib import Path
 
@@ -186,7 +187,8 @@ class ScenarioManagerSd(ScenarioManager):
         for name, function in model.functions.items():
             new_function = new_mod.function(name, model.fn[name])
 
-        new_mod.points = model.points
+        # every clone gets its own points: scenario and step settings change them in place
+        new_mod.points = copy.deepcopy(model.points)
 
         return new_mod
 
